@@ -260,27 +260,29 @@ FASTOR_INLINE void vector_setter(SIMDVector<T,ABI> &vec, const T *data, int idx,
 // FASTOR_INLINE void vector_setter(SIMDVector<T,ABI> &vec, const T *data, int idx, int general_stride) {
 //     vec.set(data[idx]);
 // }
+// 16 word [complex double]: unlike the real vectors, whose set() follows the _mm_set_* convention (last
+// argument in lane 0), the complex vectors' set() takes the lanes in memory order (first argument in lane 0)
 // 16 word scalar/SSE
 template<typename T, typename ABI,
          typename std::enable_if<sizeof(T)==16 && internal::get_simd_vector_size<SIMDVector<T,ABI>>::bitsize==128,bool>::type=0>
 FASTOR_INLINE void vector_setter(SIMDVector<T,ABI> &vec, const T *data, int idx, int general_stride) {
-    vec.set(data[idx+general_stride],data[idx]);
+    vec.set(data[idx],data[idx+general_stride]);
 }
 // 16 word AVX
 template<typename T, typename ABI,
          typename std::enable_if<sizeof(T)==16 && internal::get_simd_vector_size<SIMDVector<T,ABI>>::bitsize==256,bool>::type=0>
 FASTOR_INLINE void vector_setter(SIMDVector<T,ABI> &vec, const T *data, int idx, int general_stride) {
-    vec.set(data[idx+3*general_stride],data[idx+2*general_stride],
-            data[idx+general_stride],data[idx]);
+    vec.set(data[idx],data[idx+general_stride],
+            data[idx+2*general_stride],data[idx+3*general_stride]);
 }
 // 16 word AVX 512
 template<typename T, typename ABI,
          typename std::enable_if<sizeof(T)==16 && internal::get_simd_vector_size<SIMDVector<T,ABI>>::bitsize==512,bool>::type=0>
 FASTOR_INLINE void vector_setter(SIMDVector<T,ABI> &vec, const T *data, int idx, int general_stride) {
-    vec.set(data[idx+7*general_stride],data[idx+6*general_stride],
-            data[idx+5*general_stride],data[idx+4*general_stride],
-            data[idx+3*general_stride],data[idx+2*general_stride],
-            data[idx+general_stride],data[idx]);
+    vec.set(data[idx],data[idx+general_stride],
+            data[idx+2*general_stride],data[idx+3*general_stride],
+            data[idx+4*general_stride],data[idx+5*general_stride],
+            data[idx+6*general_stride],data[idx+7*general_stride]);
 }
 //----------------------------------------------------------------------------------------------------------------
 
@@ -348,24 +350,24 @@ FASTOR_INLINE void vector_setter(SIMDVector<T,ABI> &vec, const T *data, const st
             data[a[3]],data[a[2]],data[a[1]],data[a[0]]);
 }
 
-// 16 word scalar/SSE
+// 16 word [complex double, set() takes the lanes in memory order] scalar/SSE
 template<typename T, typename ABI,
          typename std::enable_if<sizeof(T)==16 && internal::get_simd_vector_size<SIMDVector<T,ABI>>::bitsize==128,bool>::type=0>
 FASTOR_INLINE void vector_setter(SIMDVector<T,ABI> &vec, const T *data, const std::array<int,2> &a) {
-    vec.set(data[a[1]],data[a[0]]);
+    vec.set(data[a[0]],data[a[1]]);
 }
 // 16 word AVX
 template<typename T, typename ABI,
          typename std::enable_if<sizeof(T)==16 && internal::get_simd_vector_size<SIMDVector<T,ABI>>::bitsize==256,bool>::type=0>
 FASTOR_INLINE void vector_setter(SIMDVector<T,ABI> &vec, const T *data, const std::array<int,4> a) {
-    vec.set(data[a[3]],data[a[2]],data[a[1]],data[a[0]]);
+    vec.set(data[a[0]],data[a[1]],data[a[2]],data[a[3]]);
 }
 // 16 word AVX 512
 template<typename T, typename ABI,
          typename std::enable_if<sizeof(T)==16 && internal::get_simd_vector_size<SIMDVector<T,ABI>>::bitsize==512,bool>::type=0>
 FASTOR_INLINE void vector_setter(SIMDVector<T,ABI> &vec, const T *data, const std::array<int,8> a) {
-    vec.set(data[a[7]],data[a[6]],data[a[5]],data[a[4]],
-            data[a[3]],data[a[2]],data[a[1]],data[a[0]]);
+    vec.set(data[a[0]],data[a[1]],data[a[2]],data[a[3]],
+            data[a[4]],data[a[5]],data[a[6]],data[a[7]]);
 }
 //----------------------------------------------------------------------------------------------------------------
 //----------------------------------------------------------------------------------------------------------------
